@@ -354,9 +354,10 @@ package server
 
 // apply: every operation is dispatched with the entry's index as epoch; CREATE stamps that index
 // on every partition before the stream is added; unknown operations are errors
-//@ func (*Server).apply serves C06, C07
+//@ func (*Server).apply serves C06, C07, C18
 //@   returns (v, err)
 //@   requires s != nil && log != nil
+//@   call SetLastPublishedRaftIndex requires [C18:records-the-index-of-the-published-operation] arg1 == log.PublishActivityOp.RaftIndex
 //@   call applyCreateStream requires [stamped-with-index] arg3 == index && arg2 == recovered && (forall j int :: 0 <= j && j < len(log.CreateStreamOp.Stream.Partitions) ==> log.CreateStreamOp.Stream.Partitions[j].LeaderEpoch == index && log.CreateStreamOp.Stream.Partitions[j].Epoch == index)
 //@   call applyShrinkISR requires [index-as-epoch] arg4 == index && arg1 == log.ShrinkISROp.Stream && arg2 == log.ShrinkISROp.ReplicaToRemove && arg3 == log.ShrinkISROp.Partition
 //@   call applyExpandISR requires [index-as-epoch] arg4 == index && arg1 == log.ExpandISROp.Stream && arg2 == log.ExpandISROp.ReplicaToAdd && arg3 == log.ExpandISROp.Partition
@@ -463,8 +464,15 @@ package server
 //@   loop 2 invariant ghost.start <= index && log.Index == index && log.Type == 0 && (forall k uint64 :: ghost.start <= k && k < index ==> ghost.handled[k])
 
 // handleRaftLog: the event id is the entry's Raft index (the same on every redelivery)
+//@ ghost var actOp proto.Op
+//@ ghost var evPublished bool
 //@ func (*activityManager).handleRaftLog serves C18
 //@   requires a != nil && l != nil
+//@   ghost at entry: ghost.evPublished := false
+//@   ghost after call Unmarshal: ghost.actOp := log.Op
+//@   ghost after call publishActivityEvent: ghost.evPublished := ret0 == nil
+//@   ensures [every-stream-operation-gets-its-event] result == nil && (ghost.actOp == proto.Op_CREATE_STREAM || ghost.actOp == proto.Op_DELETE_STREAM || ghost.actOp == proto.Op_PAUSE_STREAM || ghost.actOp == proto.Op_RESUME_STREAM || ghost.actOp == proto.Op_SET_STREAM_READONLY || ghost.actOp == proto.Op_JOIN_CONSUMER_GROUP || ghost.actOp == proto.Op_LEAVE_CONSUMER_GROUP) ==> ghost.evPublished
+//@   call publishActivityEvent requires [event-built-from-the-entry-alone] (log.Op == proto.Op_PAUSE_STREAM ==> arg1.PauseStreamOp != nil && arg1.PauseStreamOp.Stream == log.PauseStreamOp.Stream && arg1.PauseStreamOp.Partitions == log.PauseStreamOp.Partitions) && (log.Op == proto.Op_RESUME_STREAM ==> arg1.ResumeStreamOp != nil && arg1.ResumeStreamOp.Stream == log.ResumeStreamOp.Stream && arg1.ResumeStreamOp.Partitions == log.ResumeStreamOp.Partitions) && (log.Op == proto.Op_SET_STREAM_READONLY ==> arg1.SetStreamReadonlyOp != nil && arg1.SetStreamReadonlyOp.Stream == log.SetStreamReadonlyOp.Stream && arg1.SetStreamReadonlyOp.Partitions == log.SetStreamReadonlyOp.Partitions) && (log.Op == proto.Op_DELETE_STREAM ==> arg1.DeleteStreamOp != nil && arg1.DeleteStreamOp.Stream == log.DeleteStreamOp.Stream)
 //@   call publishActivityEvent requires [id-is-raft-index] arg1.Id == l.Index
 //@   call publishActivityEvent requires [op-mapping] (log.Op == proto.Op_CREATE_STREAM ==> arg1.Op == client.ActivityStreamOp_CREATE_STREAM) && (log.Op == proto.Op_DELETE_STREAM ==> arg1.Op == client.ActivityStreamOp_DELETE_STREAM) && (log.Op == proto.Op_PAUSE_STREAM ==> arg1.Op == client.ActivityStreamOp_PAUSE_STREAM) && (log.Op == proto.Op_RESUME_STREAM ==> arg1.Op == client.ActivityStreamOp_RESUME_STREAM) && (log.Op == proto.Op_SET_STREAM_READONLY ==> arg1.Op == client.ActivityStreamOp_SET_STREAM_READONLY) && (log.Op == proto.Op_JOIN_CONSUMER_GROUP ==> arg1.Op == client.ActivityStreamOp_JOIN_CONSUMER_GROUP) && (log.Op == proto.Op_LEAVE_CONSUMER_GROUP ==> arg1.Op == client.ActivityStreamOp_LEAVE_CONSUMER_GROUP)
 
